@@ -337,6 +337,9 @@ func (c *Conn) RdExpired() bool { return c.rdExpired }
 func (c *Conn) WrExpired() bool { return c.wrExpired }
 func (c *Conn) Armed() bool     { return c.rdArmed || c.wrArmed }
 
+// WrArmed reports whether a write deadline in the future is in force.
+func (c *Conn) WrArmed() bool { return c.wrArmed }
+
 // ---------------------------------------------------------------- listener
 
 // Listener is a controlled net.Listener.
